@@ -647,12 +647,18 @@ def r15_10(ctx: Ctx) -> None:
                        f"{{{', '.join('**' + o for o in order)}}}" + ("" if ok else ": iteration meets the deleted namesake before the live item"))
         if merged:
             continue
+        def mentions(x: CNode, txt: str) -> bool:
+            root = x.ast.iter if x.kind == "for" else x.expr_root()
+            return root is not None and any(unparse(y) == txt for y in ast.walk(root))
+
         live_loops = [x for x in g.nodes if x.kind == "for" and unparse(x.ast.iter).startswith(lt)]
-        dead_nodes = [x for x in g.nodes if x.kind in ("for", "stmt", "cond") and x.expr_root() is not None and any(
-            unparse(y) == dt for y in ast.walk(x.ast.iter if x.kind == "for" else x.expr_root()))]
-        if not live_loops or not dead_nodes:
+        # the live mapping handed to a helper that searches it (`self._find(self.files, name)`) is a consultation too
+        live_calls = [x for x in g.nodes if x.kind in ("stmt", "cond") and mentions(x, lt) and not mentions(x, dt)]
+        dead_nodes = [x for x in g.nodes if x.kind in ("for", "stmt", "cond") and mentions(x, dt)]
+        if not (live_loops or live_calls) or not dead_nodes:
             raise AnalysisError(f"R15.10: {spec} no longer scans self.{live} and self.{dead} in a recognisable way")
-        p = g.path_avoiding(dead_nodes, lambda e: bool(e.label and e.label[0] == "iter" and e.label[2] is False and any(e.src is l for l in live_loops)))
+        p = g.path_avoiding(dead_nodes, lambda e: bool(e.label and e.label[0] == "iter" and e.label[2] is False and any(e.src is l for l in live_loops)),
+                            blocked_nodes={x.id for x in live_calls})
         n += 1
         ctx.record("R15.10", ctx.key(f, "the deleted mapping is consulted only after the live scan is exhausted"), f.loc(dead_nodes[0].ast), p is None,
                    f"self.{dead} is reached only past the exhausted scan of self.{live}" if p is None else
